@@ -55,6 +55,8 @@ class UBody:
         self.errors = []
         self.d = Dfx(body)
         self.names = body.param_names()
+        fl = body.file.replace("\\", "/")
+        self.generic_layer = fl.endswith(("src/ops.rs", "src/sort.rs", "src/translate.rs", "src/copy.rs"))
 
     def pkey(self, p):
         ty = self.b["locals"][p["local"]]
@@ -268,6 +270,13 @@ class UBody:
                                         for (l, path), uu in list(self.unit.items()):
                                             if l == sk[0] and path[:len(sk[1])] == sk[1] and len(path) > len(sk[1]):
                                                 changed |= self.setu((key[0], key[1] + (i,) + path[len(sk[1]):]), uu, "tuple build")
+                        elif rv["agg"] == "adt" and rv["adt"].split("::")[-1] in ("Range", "RangeInclusive", "RangeFrom", "RangeTo") and key:
+                            # a range of positions carries the unit of its bounds; so do the items of its iteration
+                            us = {self.op_unit(fo) for fo in rv["fields"]} - {None, "CONST"}
+                            if len(us) == 1:
+                                changed |= self.setu(key, "RANGE:" + us.pop(), "range")
+                            elif us == {ROW, COL}:
+                                self.err("u3", "range:ROW..COL", "a range runs from a %s to a %s position: %s" % (self.op_unit(rv["fields"][0]), self.op_unit(rv["fields"][1]), ", ".join(self.sh(fo) for fo in rv["fields"])), st["span"])
                         elif rv["agg"] == "adt":
                             stn = norm_ty(rv["adt"])
                             fu_map = self.FT.get(stn)
@@ -279,7 +288,7 @@ class UBody:
                                         self.err("u5", "%s.%s=%s" % (stn.split("::")[-1], fname, fu), "field %s.%s (%s) is initialised with a %s value: %s" % (stn.split("::")[-1], fname, fu_map[i], fu, self.sh(fo)), st["span"])
                     if seeded and u in (ROW, COL) and u != seeded:
                         self.err("u5", "store:%s<-%s" % (seeded, u), "a %s field is assigned a %s value: %s" % (seeded, u, show(self.d.rvalue(rv), self.names)), st["span"])
-                    if u in (ROW, COL, CELL) and key and not seeded:
+                    if (u in (ROW, COL, CELL) or (isinstance(u, str) and u.startswith("RANGE:"))) and key and not seeded:
                         changed |= self.setu(key, u, "assign")
                 t = bl["term"]
                 if t and t["k"] == "call" and t["func"].get("fn"):
@@ -288,6 +297,41 @@ class UBody:
                     dk, _ = self.pkey(t["dest"])
                     if name in GETTERS and len(t["args"]) == 1:
                         changed |= self.setu(dk, GETTERS[name], "getter")
+                    # ranges: adaptors keep the unit, stepping yields items of that unit
+                    if t["args"] and t["args"][0]["k"] in ("copy", "move"):
+                        ak0, _ = self.pkey(t["args"][0]["p"])
+                        au0 = self.unit.get(ak0) if ak0 else None
+                        if au0 is None and ak0 is not None:
+                            # through `&mut range`
+                            dd = self.d.single_def(t["args"][0]["p"]["local"]) if not t["args"][0]["p"]["proj"] else None
+                            for _ in range(3):
+                                if dd is not None and dd[0] == "stmt" and dd[3]["rv"]["k"] == "ref":
+                                    rk, _ = self.pkey(dd[3]["rv"]["p"])
+                                    au0 = self.unit.get((rk[0], tuple(x for x in rk[1]))) if rk else None
+                                    if au0 is None and rk and len(dd[3]["rv"]["p"]["proj"]) == 1 and dd[3]["rv"]["p"]["proj"][0]["k"] == "deref":
+                                        dd = self.d.single_def(dd[3]["rv"]["p"]["local"])
+                                        continue
+                                break
+                        if isinstance(au0, str) and au0.startswith("RANGE:") and dk:
+                            if name in ("into_iter", "rev", "clone"):
+                                changed |= self.setu(dk, au0, "range adaptor")
+                            elif name in ("next", "next_back") :
+                                changed |= self.setu((dk[0], dk[1] + (0,)), au0[6:], "range item")
+                    # u7: a Coordinate is (col, row); ordering two of them lexicographically (tuple <, <=, >, >=, cmp) compares
+                    # the column first and the row only on ties - never what a bounds / direction decision needs
+                    if name in ("lt", "le", "gt", "ge", "cmp", "partial_cmp", "min", "max") and re.search(r"\(usize, usize\)", " ".join(fn.get("args", []))) \
+                            and (fn["path"].startswith("core::tuple::") or fn["path"].startswith("core::cmp::")):
+                        self.err("u7", "coord-%s" % name, "two Coordinates are ordered lexicographically (%s on (col,row) tuples): the column decides and the row only breaks ties" % name, t["span"])
+                    # stepping a row / column cursor by a COL quantity
+                    if name in ("nth", "nth_back") and len(t["args"]) == 2 and re.search(r"iter::(Rows|RowsMut|Col|ColMut)<", (fn.get("self_ty") or "") + (fn.get("resolved") or "")):
+                        au = self.op_unit(t["args"][1])
+                        if au == COL:
+                            self.err("u4", "%s(n:ROW<-COL)" % name, "a row/column cursor is advanced by a COL quantity: %s(%s)" % (name, self.sh(t["args"][1])), t["span"])
+                    # u6: positions inside a row slice are COL quantities
+                    if self.generic_layer and re.match(r"^core::slice::<impl \[T\]>::(get_unchecked|get_unchecked_mut|rotate_left|rotate_right|split_at|split_at_mut|swap)$", fn["path"]):
+                        for a in t["args"][1:]:
+                            if self.op_unit(a) == ROW:
+                                self.err("u6", "%s(ROW)" % name, "a row slice is indexed / rotated / split by a ROW quantity: %s(%s)" % (name, self.sh(a)), t["span"])
                     if name == "size" and (fn.get("trait") or "").endswith("TooDeeOps") and dk:
                         changed |= self.setu((dk[0], dk[1] + (0,)), COL, "size")
                         changed |= self.setu((dk[0], dk[1] + (1,)), ROW, "size")
